@@ -311,6 +311,38 @@ pub fn c12(g: &mut Gen) {
             v.push(format!("{} {}", qt(&Tensor::single(vec![1.0])), qt(&Tensor::single(vec![1.0 + *o]))));
         }
         g.push(format!("net {} validate {} {} {} 0", net1.token(), offs.len(), v.join(" "), hx(tol)), Tol::Tight, "validate/tolerance-boundary/single", true);
+        // tolerances below the rounding unit, zero, negative and NaN are used AS GIVEN: predictions that equal the target
+        // exactly or to one unit in the last place are within the tolerance only if `|t - p| < tol` says so
+        let up = |v: f32, k: i32| f32::from_bits((v.to_bits() as i32 + k) as u32);
+        for tiny in [0.0f32, 1e-9, f32::from_bits(1), -1.0, f32::NAN, 6e-8, f32::EPSILON] {
+            let mut v = Vec::new();
+            for a in 0..8usize {
+                let x = vec![0.5f32, -1.0, 2.0];
+                let t: Vec<f32> = (0..3).map(|c| match (a + c) % 4 { 0 => x[c], 1 => up(x[c], 1), 2 => up(x[c], -1), _ => x[c] + 0.5 }).collect();
+                v.push(format!("{} {}", qt(&Tensor::single(x)), qt(&Tensor::single(t))));
+            }
+            g.push(format!("net {} validate 8 {} {} 0", net3.token(), v.join(" "), hx(tiny)), Tol::Tight, "validate/tiny-tolerance/multi", true);
+            let mut v = Vec::new();
+            for a in 0..70usize {
+                let t = match a % 4 { 0 => 1.0f32, 1 => up(1.0, 1), 2 => up(1.0, -1), _ => 1.5 };
+                v.push(format!("{} {}", qt(&Tensor::single(vec![1.0])), qt(&Tensor::single(vec![t]))));
+            }
+            g.push(format!("net {} validate 70 {} {} 0", net1.token(), v.join(" "), hx(tiny)), Tol::Tight, "validate/tiny-tolerance/single", true);
+        }
+        // inputs that differ only far below their neighbours' scale (a few 1e-6 apart) through a network that amplifies
+        // them: every input has its OWN prediction
+        let amp = |n: usize| -> NetSpec {
+            let w = Tensor::double((0..n).map(|i| (0..n).map(|j| if i == j { 1.0e6 } else { 0.0 }).collect()).collect());
+            NetSpec { input: Shape::Single(n), builds: vec![Build::Layer(InnerSpec::Dense { out: n, act: "tanh".into(), bias: false, dropout: None, w, b: None })],
+                skipacc: "add".into(), loopacc: "mean".into(), opt: None, obj: "mse".into(), clamp: None }
+        };
+        for n in [5usize, 70] {
+            let neta = amp(2);
+            let xs: Vec<String> = (0..n).map(|i| qt(&Tensor::single(vec![1e-6 * (i % 7) as f32 - 2e-6, 5e-7 * ((i * 3) % 5) as f32]))).collect();
+            g.push(format!("net {} predict_batch {} {}", neta.token(), n, xs.join(" ")), Tol::Tight, &format!("predict_batch/near-duplicate-inputs/{}", n), true);
+            let ys: Vec<String> = (0..n).map(|i| qt(&Tensor::single(vec![0.25 + 1e-6 * (i % 3) as f32, -0.5]))).collect();
+            g.push(format!("net {} predict_batch {} {}", ident(2).token(), n, ys.join(" ")), Tol::Exact, &format!("predict_batch/near-duplicate-inputs/identity/{}", n), true);
+        }
     }
     // networks with loop connections, skip connections and feedback blocks: predict / predict_batch / validate must
     // still be the final activation of forward and its faithful aggregations
@@ -489,6 +521,10 @@ pub fn c09(g: &mut Gen) {
         // returns with every flag off
         g.push(format!("net {} learnon 4 {} 1 3 {} 5 2 3 0", net.token(), s, v), Tol::Loose, &format!("dense-x{}/learn-entered-with-flags-on", depth), true);
         g.push(format!("net {} learnon 4 {} 0 2 2 0", net.token(), s), Tol::Loose, &format!("dense-x{}/learn-entered-with-flags-on", depth), true);
+        // zero epochs: nothing is trained, and the network still comes back in inference mode
+        g.push(format!("net {} learn 4 {} 0 2 0 0", net.token(), s), Tol::Loose, &format!("dense-x{}/learn-zero-epochs", depth), true);
+        g.push(format!("net {} learn 4 {} 1 3 {} 5 2 0 0", net.token(), s, v), Tol::Loose, &format!("dense-x{}/learn-zero-epochs", depth), true);
+        g.push(format!("net {} learnon 4 {} 0 2 0 0", net.token(), s), Tol::Loose, &format!("dense-x{}/learn-zero-epochs-entered-with-flags-on", depth), true);
         g.push(format!("net {} learnon 4 {} 1 3 {} 2 2 6 6 {}", net.token(), s, v, q1(&[1.0f32, 2.0, 3.0, 4.0, 5.0, 6.0])), Tol::Loose,
             &format!("dense-x{}/learn-entered-with-flags-on", depth), true);
     }
@@ -1265,6 +1301,49 @@ pub fn c17(g: &mut Gen) {
                     g.push(format!("net {} predict {}", net.token(), qt(&x)), Tol::Tight,
                         &format!("k{}/{}/inskips{}/{}", iters, acc, inskips as u8, ["dense", "conv", "conv+maxpool"][kind]), true);
                 }
+            }
+        }
+    }
+    // loops that start behind a layer which CHANGES the shape (a dense layer changing the width, a convolution changing the
+    // channel count, a strided convolution changing the map): with input skips the original input of layer a — the output
+    // of that layer — is added in every iteration all the same
+    for acc in ACCS.iter() {
+        for inskips in [true, false] {
+            for kind in 0..3usize {
+                if !g.ctx.thorough() && !inskips && kind != 0 { continue; }
+                let mut net = match kind {
+                    0 => {
+                        let c = ArchCfg { conv: false, deconv: false, pool: false, flat_input: Some(true), ..cfg.clone() };
+                        NetSpec { input: Shape::Single(3), builds: vec![Build::Layer(dense_spec(g, &c, 3, 4, "tanh", true)), Build::Layer(dense_spec(g, &c, 4, 4, "tanh", true)),
+                            Build::Layer(dense_spec(g, &c, 4, 4, "sigmoid", false)), Build::Layer(dense_spec(g, &c, 4, 2, "linear", true))],
+                            skipacc: "add".into(), loopacc: "mean".into(), opt: None, obj: "mse".into(), clamp: None }
+                    }
+                    1 => {
+                        let first = InnerSpec::Conv { filters: 2, act: "tanh".into(), k: (3, 3), s: (1, 1), p: (1, 1), d: (1, 1), dropout: None,
+                            ks: (0..2).map(|_| weights(g, &Shape::Triple(1, 3, 3), 0.4)).collect() };
+                        let mk = |g: &mut Gen| InnerSpec::Conv { filters: 2, act: "tanh".into(), k: (3, 3), s: (1, 1), p: (1, 1), d: (1, 1), dropout: None,
+                            ks: (0..2).map(|_| weights(g, &Shape::Triple(2, 3, 3), 0.3)).collect() };
+                        NetSpec { input: Shape::Triple(1, 3, 4), builds: vec![Build::Layer(first), Build::Layer(mk(g)), Build::Layer(mk(g))],
+                            skipacc: "add".into(), loopacc: "mean".into(), opt: None, obj: "mse".into(), clamp: None }
+                    }
+                    _ => {
+                        let first = InnerSpec::Conv { filters: 1, act: "tanh".into(), k: (2, 2), s: (2, 2), p: (0, 0), d: (1, 1), dropout: None,
+                            ks: vec![weights(g, &Shape::Triple(1, 2, 2), 0.5)] };
+                        let mk = |g: &mut Gen| InnerSpec::Conv { filters: 1, act: "sigmoid".into(), k: (3, 3), s: (1, 1), p: (1, 1), d: (1, 1), dropout: None,
+                            ks: vec![weights(g, &Shape::Triple(1, 3, 3), 0.3)] };
+                        NetSpec { input: Shape::Triple(1, 4, 6), builds: vec![Build::Layer(first), Build::Layer(mk(g)), Build::Layer(mk(g)), Build::Layer(dense_spec(g, &cfg, 6, 2, "tanh", true))],
+                            skipacc: "add".into(), loopacc: "mean".into(), opt: None, obj: "mse".into(), clamp: None }
+                    }
+                };
+                for (hi, lo, iters) in [(2usize, 1usize, 2usize), (1, 1, 1)] {
+                    let mut n2 = net.clone();
+                    n2.builds.push(Build::Loopback { outof: hi, into: lo, iterations: iters, scale: "inv".into(), inskips });
+                    n2.loopacc = acc.to_string();
+                    let x = input_for(g, &n2.input);
+                    g.push(format!("net {} predict {}", n2.token(), qt(&x)), Tol::Tight,
+                        &format!("behind-shape-change/{}/inskips{}/{}", acc, inskips as u8, ["dense", "conv-channels", "conv-stride"][kind]), true);
+                }
+                net.loopacc = acc.to_string();
             }
         }
     }
